@@ -22,6 +22,7 @@ RULE = ("stream 'shape': random stack shapes (depth 1..6, parallel groups of 1..
 RULE += (" The stack's loop runs three idle passes before the harness leaves it.")
 RULE += (" stream 'reuse': a layer instance (plain or parallel group) of a first stack handed to a second stack at every position: nothing of the first stack is reachable from the second.")
 RULE += (" Builder scripts (push / pop / pushDefaultLayers in every order, 9 fixed + 40 generated) compared bottom to top with a plain list under the same appends.")
+RULE += (" In every third generated shape the handlers answer with other true / false values than True / False (1, 'handled', a list, a float / None, 0, '', []): consuming is the answer's truth.")
 ASSUMPTIONS = ["layers are seen by the framework through send/receive/onEvent/toLower/toUpper/emitEvent/broadcastEvent only",
                "one thread drives the stack in this check (C11/C12 cover concurrency)"]
 
@@ -82,7 +83,17 @@ class RecLayer(YowLayer):
     def onEvent(self, ev):
         n = int(ev.getName())
         LOG.append("e%d:%d" % (self.LID, n))
-        return self.CONS == n
+        return answer(self, self.CONS == n)
+
+
+# what a handler answers: "consumed" is any true value, "go on" any false one (the stack tests the answer's truth: `if self.onEvent(ev): return`)
+TRUTHY = [True, 1, "handled", [0], 2.5]
+FALSY = [False, None, 0, "", []]
+
+
+def answer(layer, consumed):
+    k = getattr(layer, "ANS", 0) % len(TRUTHY)
+    return TRUTHY[k] if consumed else FALSY[k]
 
 
 class CbLayer(RecLayer):
@@ -96,7 +107,7 @@ class CbLayer(RecLayer):
 def _handler(n):
     @EventCallback(str(n))
     def h(self, ev):
-        return self.CONS == n
+        return answer(self, self.CONS == n)
     h.__name__ = "on_event_%d" % n
     return h
 
@@ -181,10 +192,13 @@ def cases(chk):
                                                                 "5": {"cls": 1, "tx": "pass", "rx": "pass", "cons": 1, "iface": 105}},
                         "form": ["class", "class", "parallel", "inst"], "reversed": rev, "builder": 0, "pops": 0,
                         "derive": {"1": 0, "2": 1}, "style": "callbacks", "handles": {"0": [1, 9], "1": [2], "2": [3]}}
-    for _ in range(chk.scale(1200, 12000)):
+    for i in range(chk.scale(1200, 12000)):
         if not chk.time_left():
             break
-        yield "shape", _rand_case(r)
+        c = _rand_case(r)
+        if i % 3 == 1:
+            c["answers"] = 1 + i % 5        # the handlers of this case answer with other true / false values than True / False
+        yield "shape", c
     if not chk.quick():
         kinds = [0, 1, 2, 3]          # 0 = single, k = group of k
         for depth in range(1, 5):
@@ -255,6 +269,7 @@ def build_real(case):
     for k, spec in case["layers"].items():
         layer, _i = real_layer(stack, case, int(k))
         layer.LID, layer.TX, layer.RX, layer.CONS = int(k), spec["tx"], spec["rx"], spec["cons"]
+        layer.ANS = (case["answers"] + int(k)) if case.get("answers") else 0
         layer.interface = Iface(spec["iface"]) if spec["iface"] is not None else None
     return stack, by_cls
 
